@@ -391,7 +391,7 @@ func (o *Origins) globalName(g *ssa.Global) string {
 		if o.p.InModule(g.Pkg.Pkg.Path()) {
 			pk = o.p.Rel(g.Pkg.Pkg.Path())
 		} else {
-			pk = g.Pkg.Pkg.Path()
+			pk = shortPkg(g.Pkg.Pkg.Path())
 		}
 	}
 	return pk + "." + g.Name()
@@ -515,10 +515,13 @@ func (o *Origins) phi(ph *ssa.Phi) *Ex {
 	// loop accumulator?
 	if l := o.loopOfHeader(ph.Block()); l != nil {
 		var inits, steps []ssa.Value
+		partial := false
 		for i, e := range ph.Edges {
 			if l.Blocks[ph.Block().Preds[i]] {
 				if e != ph {
 					steps = append(steps, e)
+				} else {
+					partial = true // an iteration can reach the latch without updating (continue)
 				}
 			} else {
 				inits = append(inits, e)
@@ -537,7 +540,11 @@ func (o *Origins) phi(ph *ssa.Phi) *Ex {
 		op := ""
 		ok := true
 		for _, s := range steps {
+			s0 := s
 			s = stripPassThroughPhis(s, ph, l)
+			if s != s0 {
+				partial = true // conditional update
+			}
 			switch b := s.(type) {
 			case *ssa.BinOp:
 				if (b.Op == token.ADD || b.Op == token.OR) && b.X == ph {
@@ -563,6 +570,9 @@ func (o *Origins) phi(ph *ssa.Phi) *Ex {
 			ok = false
 		}
 		if ok && op != "" {
+			if partial {
+				op += "?"
+			}
 			return mk("acc", op, append([]*Ex{init}, stepEx...)...)
 		}
 		// general loop-carried value
